@@ -1593,6 +1593,10 @@ func globalInitValue(p *Program, key string) (k4val, bool) {
 					if fv, ok := constantFloat(cst); ok {
 						tab[path] = k4val{kind: 2, f: fv}
 					}
+				default:
+					if sv, ok := constString(cst); ok {
+						tab[path] = k4val{kind: 4, s: sv}
+					}
 				}
 			})
 		}
